@@ -2,6 +2,8 @@ package keys
 
 import (
 	"fmt"
+	"os"
+	"runtime/pprof"
 	"strings"
 
 	"verifharness/internal/corr"
@@ -66,7 +68,7 @@ func oneHistory(r *corr.Run, id, nAcc, steps int) {
 			break
 		}
 		h.modelStep()
-		if op.newKey != nil || r.Chance(25) {
+		if (op.newKey != nil && r.Chance(50)) || r.Chance(10) {
 			h.treeRound()
 		}
 	}
@@ -119,7 +121,13 @@ func (h *hist) modelStep() {
 }
 
 func Run(r *corr.Run) {
+	if pf := os.Getenv("KEYS_PROF"); pf != "" {
+		f, _ := os.Create(pf)
+		pprof.StartCPUProfile(f)
+		defer pprof.StopCPUProfile()
+	}
 	r.SetRule("one case = one membership history of a shareable space built with the real record builder and real keys (5-7 accounts; request-join/accept, open-invite join, direct add, remove with rotation, leave request + approval, invite revoke with and without rotation, stand-alone rotation, re-add, permission changes incl. to none, batch records), every record followed by fresh per-account views (validating and client mode) and the derivability closure on the raw bytes; tampered rotations are offered before honest ones; non-trivial = at least 2 key generations and 6 records")
+	buildWithoutKey(r)
 	id := 0
 	for r.TimeLeft() {
 		id++
@@ -133,5 +141,4 @@ func Run(r *corr.Run) {
 			break
 		}
 	}
-	buildWithoutKey(r)
 }
